@@ -110,10 +110,10 @@ def cross_process_twin(ctx, n):
             if "repl" in d:
                 d["repl"] = [sub(d["repl"][0]), d["repl"][1]]
             if "n" in d:
-                d["n"] = 300
+                d["n"] = 40
             hist.append(d)
         if i == 0:
-            hist = [{"s": 0, "op": "add", "cs": ["(xa) == 5"], "repl": ["xa", 5]}, {"s": 0, "op": "eval", "e": "xa + 1", "n": 300, "extra": []},
+            hist = [{"s": 0, "op": "add", "cs": ["(xa) == 5"], "repl": ["xa", 5]}, {"s": 0, "op": "eval", "e": "xa + 1", "n": 40, "extra": []},
                     {"s": 0, "op": "max", "e": "xa & 3", "signed": False, "extra": []}]
             cut = 1
         else:
